@@ -41,7 +41,7 @@ claim("C02", "DESIGN.md section 4 C02 + section 11",
       "state what holds) - those rest on the exact model/code correspondence (modulo names of lambda parameters) and the CPython oracle with lazy "
       "sequences over three binder-naming schemes and 6 datasets.",
       "Reference semantics Base/Eval.v is first-order and eager; hypotheses backend_ok/bok (fresh names and bound names are not backend function "
-      "names; dictionaries are records) are part of the statement. Termination not proved (explicit fuel; OutOfFuel excluded by the statement).")
+      "names; dictionaries are records) are part of the statement. Termination not proved (explicit fuel; OutOfFuel excluded by the statement; C18's fuel_is_only_a_budget: the result does not depend on the fuel).")
 claim("C14", "DESIGN.md section 4 C14 + section 11",
       "proof: Coq theorem packaging_eliminated (Proofs/SimplifyShape.v: shape_sound by strong induction on the fuel over the whole traversal, "
       "on top of C02's invariants): the discipline of the property is typability has_shape in a shape system (atoms, tuples/lists, dictionaries "
@@ -54,11 +54,8 @@ claim("C14", "DESIGN.md section 4 C14 + section 11",
       "3 naming schemes; one open known finding there), operator lambdas with other than one parameter, boolean dictionary keys.",
       "Stated over the simplifier model; the oracle checks simp(ext(q)) as backends run it.")
 claim("C18", "DESIGN.md section 4 C18 + section 11",
-      "proof (partial): Coq theorems that the dedicated index error arises exactly for a constant index outside a tuple/list literal, that non-constant, "
-      "wrong-type, negative-in-range and absent-key selectors leave a proper node around the visited sub-terms (the model has no branch that builds a raw slot), "
-      "and that the dispatch surface read from the source is the one the model assumes. NOT proved: whole-algorithm crash-freedom (simp_no_crash) and "
-      "termination; both are exercised by the correspondence (Crash/OutOfFuel vs exception/RecursionError) and the unparse+compile oracle.",
-      "Termination is outside what is proved (the simplifier re-visits its own output).")
+      "proof: Coq theorem simp_no_crash (Proofs/SimplifyTotal.v) - for every fuel, well-formed stack, counter and well-formed query the simplifier model never returns Crash, and an Ok result is again well-formed (no raw slot, operators applied to a source and a lambda, dictionary literals pair keys with values) - plus: the dedicated index error arises exactly for a constant index outside a tuple/list literal; non-constant, wrong-type, negative-in-range and absent-key selectors leave a proper node around the visited sub-terms; a called lambda with a starred argument is left as a call (F29); fuel_is_only_a_budget / more_fuel_same_outcome (Proofs/SimplifyFuel.v): any outcome other than OutOfFuel is the same for every larger fuel. Partial in one respect: termination (existence of a sufficient fuel) is not proved; it is exercised by the correspondence (OutOfFuel vs RecursionError is counted) and the unparse+compile oracle on C02's grammar plus odd selectors, shared selectors and starred arguments.",
+      'wfq mirrors harness/props/c18.py:wellformed. Termination is outside what is proved (the simplifier re-visits its own output).')
 claim("C19", "DESIGN.md section 4 C19",
       "proof: Coq theorems (agg_exact, agg_total, agg_complete, agg_sem, max/min_with_zero) about the executable model of aggregate_node_transformer whose "
       "rule table is regenerated from the source on every run; exact differential correspondence on enumerated and random trees; structural and semantic oracles.")
@@ -78,37 +75,21 @@ claim("C13", "DESIGN.md section 4 C13 + section 11",
       "Partial: float tokens are opaque; repr of non-printable non-ASCII code points is not modelled (the composite as_ast is compared on such strings).",
       "CPython's float shortest-repr round trip is trusted; ast.literal_eval is the oracle; None is deliberately not transportable inside lambdas (check_ast refusal).")
 claim("C04", "DESIGN.md section 4 C04/C05 + section 11",
-      "proof (partial): Coq theorems over the executable model of _rewrite_captured_vars/check_ast: scope (capture_respects_scope: snapshot values of names on the ignore stack - own "
-      "parameters, nested lambdas, comprehension targets - never affect the result, for all trees), gate (check_ast accepts exactly the legal constant kinds of the generated table, "
-      "otherwise ValueError, never a malformed tree), and capture_freezes_partial (refinement direction, first-order fragment, literal snapshots: the recorded lambda needs nothing from later "
-      "environments). Exact differential correspondence on generated Python programs (closures, globals, class constants, module attributes, enums, every shadowing pattern), with a value oracle "
-      "against the real callable after every captured name has been rebound or deleted.",
-      "What inspect.getclosurevars / getattr report and source recovery are inputs of the model (validated by correspondence only). Non-positional parameter kinds are oracle-only.")
+      'proof (partial): Coq theorems over the executable model of _rewrite_captured_vars/check_ast: capture_freezes_partial as an equation for every expression and every snapshot whose occurring names are bound to int/bool/str/None literals (the recorded lambda needs nothing from any later environment), capture_then_resolve_partial, capture_respects_scope / capture_stack_is_erasure / capture_params_never_replaced / capture_bound_name_kept (all trees), capture_gate / capture_gate_pipeline (check_ast accepts exactly the legal constant kinds of the generated table). Partial: names holding classes, modules, enums (attribute folding) and helpers have no counterpart in the reference semantics; they are covered by exact differential correspondence on generated Python programs (closures, globals at any nesting depth, class constants, module attributes, enums, every shadowing pattern, the same callable passed again after rebinding) with a value oracle against the real callable after every captured name has been rebound or deleted.',
+      'What inspect.getclosurevars / getattr report and source recovery are inputs of the model (validated by correspondence only).')
 
 claim("C03", "DESIGN.md section 4 C03 + section 11",
-      "proof (partial) over a token-level model of the source-recovery selection (_parse_source_for_lambda with fixes F15/F15b): safety for all token streams and all extent parsers "
-      "(finder_never_picks_neighbour: whatever is returned is the passed lambda), lambda/def separation, ambiguity => no pick, no crash of the selection logic, and liveness for the "
-      "segment-layout family (finder_supported_layouts_partial; every generated documented layout falls in it - evaluated per case, not proved). The pinned selection is refuted inside Coq. "
-      "Partial: the CPython tokenizer, untokenize/ast.parse of an extent, inspect.findsource/getsource and co_firstlineno are inputs tied by differential comparison on generated source files only; "
-      "liveness is not proved for chains continuing after a multi-line earlier argument, backslash continuations, or the def branch.",
-      "CPython 3.12.1 tokenize/inspect/ast are trusted inputs; marker-constant oracle identifies the implementation's pick.")
+      'proof (partial) over a token-level model of the source-recovery selection (_parse_source_for_lambda with fixes F15/F15b/F28): safety for all token streams and all extent parsers (finder_never_picks_neighbour: whatever is returned is the passed lambda), lambda/def separation, ambiguity => raise, totality of the selection logic, liveness and exact outcome for the recognised layout families (finder_layout_outcome, finder_recognised_layouts, nested_brackets_balanced; every generated documented layout is decided to lie in them per case), the def branch (def_exact, def_supported, def_found_only_own_return), keyword-passed lambdas (keyword_lambda_filed_under_method, keyword_lambda_recovered); four pinned pre-fix behaviours refuted inside Coq. Partial: the CPython tokenizer, untokenize/ast.parse of an extent, inspect.findsource/getsource and co_firstlineno are inputs tied by differential comparison on generated source files only; liveness is not proved outside the layout families.',
+      "CPython 3.12.1 tokenize/inspect/ast are trusted inputs; a marker-constant oracle identifies the implementation's pick and compares it with the callable that was passed, by behaviour.")
 claim("C07", "DESIGN.md section 4 C07-C10 + section 11",
-      "proof (partial): fill_is_bind - the model of _fill_in_default_arguments equals an independently written Signature.bind + apply_defaults specification for every signature "
-      "(distinct parameter names) and every acceptable call shape, including refusal of a missing required parameter; fill_keeps_positionals; own_operators_untouched. NOT proved: "
-      "calls_normalised over whole follow output (statement kept in Properties/C07.v); it is covered by exact correspondence of the follower model on generated class models and by the "
-      "inspect.Signature.bind oracle at lambda depths 0-3.",
-      "typing/inspect.signature/get_type_hints/MRO are represented by a class table read back from the live generated classes; the parameter filter and the index increment are read from source into a generated table.")
+      "proof: calls_normalised / stream_calls_normalised (Proofs/TypeFollowNormalised.v) - over the whole follower model, for every class table with distinct parameter names: the emitted tree is related to the input by the separately written relation `norm` (every call that resolves to a method of a candidate class or to a registered function is in complete_call form = Signature.bind + apply_defaults, at any lambda depth; own operators keep exactly their lambda); fill_is_bind (the default-filling model equals an independent bind specification for every signature and call shape incl. refusal of a missing required parameter), fill_keeps_positionals, own_operators_untouched. One sub-claim (the emitted call stays inside the emitted tree) is C09's rewrite_is_emitted. Exact correspondence of the follower model on generated class models and the inspect.Signature.bind oracle at lambda depths 0-3, incl. operator lambdas passed by keyword.",
+      'typing/inspect.signature/get_type_hints/MRO are represented by a class table read back from the live generated classes; the parameter filter and the index increment are read from source into a generated table.')
 claim("C08", "DESIGN.md section 4 C07-C10 + section 11",
-      "proof (partial): stream_item_types (Select gives the result type, SelectMany the element type, Where keeps the item type and requires bool), where_refuses_non_bool, binop_promotion, "
-      "where_bool_shapes, and the generic-inheritance witnesses by evaluation. NOT proved: follow_types_agree against a declarative typing relation (statement kept in Properties/C08.v); covered by "
-      "exact correspondence on random generic class models (inheritance, type variables, Iterable subclasses, collection classes) with independently computed expected types.",
-      "typing/inspect are represented by the class table read from live classes.")
+      "proof: follow_types_agree (Proofs/TypeFollowTyping.v) - whenever the declarative mutual typing relation wt/wts (names, constants, comparisons, promotion, conditionals, subscripts, dictionary/dataclass fields, registered functions, methods with return annotations resolved through the base chain, collection methods, Select/SelectMany/Where with lambdas) gives an expression a type, the follower model returns exactly that type; wt_deterministic; stream_types_agree; stream_item_types, where_refuses_non_bool, binop_promotion. Relative to the util-types model: base-chain substitution and method lookup inside wt are the model's own functions, tied to typing/inspect by exact correspondence on random generic class models (inheritance, type variables at depth 0-3, Iterable subclasses, collection classes) with independently computed expected types.",
+      'typing/inspect are represented by the class table read from live classes.')
 claim("C09", "DESIGN.md section 4 C07-C10 + section 11",
-      "proof (partial): local laws of the follower model - class_before_method (order, call sites seen, last rewrite emitted, metadata adjacency), no_callback_no_event, "
-      "no_spurious_events_untyped, nested_events_surface (all events of a nested operator lambda reach the enclosing stream; the emitted argument is the followed lambda), param_by_value. "
-      "NOT proved: callbacks_exact and a whole-chain metadata_upstream (statements kept in Properties/C09.v); covered by exact correspondence of invocation log, MetaData chain and emitted call sites "
-      "for 12 callback placements at lambda depths 0-2.",
-      "Callbacks are modelled by their observable effect (event, optional metadata, one of three rewrites).")
+      'proof: callbacks_exact (the event list of the follower equals an independently written traversal callback_sites: children left to right, class callback then method callback per resolved site, at any nesting depth), metadata_upstream (the MetaData chain around the source, in firing order), rewrite_is_emitted (the call the last callback returned is in the emitted tree), class_before_method, no_callback_no_event, no_spurious_events_untyped, nested_events_surface, param_by_value. Exact correspondence of invocation log, MetaData chain and emitted call sites for callback placements at lambda depths 0-2 incl. inherited methods under decorated subclasses and keyword lambdas.',
+      'Callbacks are modelled by their observable effect (event, optional metadata, one of the rewrites incl. a new call node).')
 claim("C10", "DESIGN.md section 4 C07-C10 + section 11",
       "proof: untyped_passthrough / untyped_stream_ops / where_bool_shapes for every class table and callback table over the model of the follower: on an untyped stream every expression of the "
       "stated grammar is emitted structurally unchanged with no events, or refused with a designed ValueError located in the expression; never a crash; Where keeps comparison/boolean bodies. "
@@ -126,10 +107,7 @@ claim("C17", "DESIGN.md section 4 C17 + section 11",
       "Operator list regenerated from source and cross-checked against the imported module; pyref_lite is used only to find failing inputs.")
 
 claim("C05", "DESIGN.md section 4 C04/C05 + section 11",
-      "proof (partial): Coq theorems over the executable model of helper inlining (visit_Name / _resolve_called_lambdas with fixes F06, F07, FC2, FC4-FC6): inline_leaves_by_name (full: a helper that "
-      "cannot be inlined stays a call with the same arguments), inline_sem_partial (Python call semantics - positional binding, call by value - is preserved on the fragment where no lambda or "
-      "comprehension binder stays inside an inlined body, or the call has constant arguments; the capture bail-out never fires inside that fragment). Bodies with staying binders and non-constant "
-      "arguments are covered by exact correspondence on generated Python programs and by the value oracle against the real callable.",
+      "proof (partial): inline_sem_partial - for every expression, backend and environment, under first_order only (no parameter of a called lambda is itself called: the declared limit of the reference semantics), resolve_called preserves the value; no hygiene hypothesis (the proof uses the implementation's own bail-out test and the coincidence lemma); inline_sem_stack (the invariant), inline_leaves_by_name (a helper that cannot be inlined stays a call with the same arguments), starred arguments and default values of staying lambdas (F30-F32) structurally. Higher-order helpers are covered by exact correspondence on generated Python programs and the value oracle against the real callable.",
       "As C04; each helper's Lambda and its own closure snapshot are built by the generator from the helper's own text.")
 claim("C06", "DESIGN.md section 4 C06 + section 11",
       "proof: Coq theorems over the executable model of resolve_syntatic_sugar (with fix F17): sugar_sem (every backend, environment and nesting: single-for comprehensions lower to Where/Select chains "
